@@ -8,3 +8,7 @@ ENDPOINT_ASSUMPTIONS = [
     'tokio::time::sleep replaced by a model: a sleep lasts any whole number of seconds >= 0 (over-approximation), at most 2-3 sleeps per call',
     'Instant::now() in endpoint.rs replaced (expression cut, 3 sites) by a model: non-decreasing symbolic clock, whole seconds, advances <= 2 s per reading',
 ]
+
+ST = 'acmed/src/storage.rs'
+FILES_EXIST_CUT = {'file': ST, 'fn': 'certificate_files_exists', 'body': '\tcrate::verif_env::env().files_exist'}
+GET_CERT_CUT = {'file': ST, 'fn': 'get_certificate', 'body': '\tlet e = crate::verif_env::env();\n\tif e.cert_unreadable { return Err("unreadable".into()); }\n\tOk(X509Certificate::from_pem(&e.cert_file[..e.cert_file_len])?)'}
